@@ -19,6 +19,17 @@ std::vector<int> rfft_cache_keys();
 using cache_cb_t = void (*)(int kind, int n, bool hit, const int* keys, int nkeys, int map_size, const void* cache_id);
 extern cache_cb_t on_cache_access;
 
+//cooperative scheduling points: called at places where a thread has just written (or is about to read) state that
+//would be shared if it were not per call / per thread; a test scheduler may block the caller there
+//points: 1 = FactorFFTPlan scratch written (transpose / leaf solve), 10 = random generator call, 20 = plan cache lookup done
+using yield_cb_t = void (*)(int point, const void* obj);
+extern yield_cb_t on_yield;
+inline void yield(int point, const void* obj) {
+    if (on_yield != nullptr) {
+        on_yield(point, obj);
+    }
+}
+
 //number of trial divisions (n % d) performed by the prime helpers in the calling thread
 extern thread_local unsigned long long trial_divisions;
 
